@@ -55,7 +55,7 @@ func sanitize(x string) string {
 	var b strings.Builder
 	for _, r := range x {
 		switch {
-		case r >= 'a' && r <= 'z', r >= 'A' && r <= 'Z', r >= '0' && r <= '9', r == '_', r == '.', r == '!', r == '$', r == '@', r == '#':
+		case r >= 'a' && r <= 'z', r >= 'A' && r <= 'Z', r >= '0' && r <= '9', r == '_', r == '.', r == '!', r == '$', r == '@':
 			b.WriteRune(r)
 		case r == '*':
 			b.WriteString("P")
